@@ -65,6 +65,7 @@ def run_case(ctx, spec, text, meta=None):
         ctx.count('load_function_creation_failed')
         ctx.case(case, False)
         return
+    H.prior_partial_use(ctx, m, text, 4)
     m.reset()
     kind, x = H.run_load(load, text)
     ctx.count('loads')
